@@ -310,6 +310,25 @@ def r2_step_level(ctx):
                 found['apply_success'][0][1]):
         ctx.finding(f, found['apply_success'][0][1], 'applying_/applied_'
                     'migration carry different payloads')
+    # every progress event is forwarded: a send may depend on the action
+    # only.  Any other condition (e.g. the "fake" flag, which Django flips
+    # between apply_start and apply_success of a soft-applied initial
+    # migration) can suppress one half of a pair.
+    for sig in sorted(set(want.values())):
+        for n, c in signal_sends(g, sig):
+            for t in g.nodes:
+                if t.kind != 'test' or not (g.guarded_by(n, t, 'T') or
+                                            g.guarded_by(n, t, 'F')):
+                    continue
+                names = {x.id for x in ast.walk(t.ast)
+                         if isinstance(x, ast.Name)}
+                if names <= {action}:
+                    continue
+                ctx.finding(f, t.ast, '%s.send also depends on "%s": a '
+                            'progress event can be dropped for one half of '
+                            'an applying/applied pair' % (sig,
+                                                          unparse(t.ast)),
+                            key='progress-filter:%s' % unparse(t.ast))
     init = p.func('utils.migrations', 'MigrationExecutor.__init__')
     ok = False
     for c in walk_no_nested(init.node):
